@@ -235,10 +235,17 @@ def cross_section(P, rep, rule="EXPR.crosssection"):
         if n.get("k") == "MemberExpr" and n.get("n") == "surface_coord_conversions":
             scc_key = ("var", ("f", n["r"]))
     stmts = [s for s in astq.stmts_of(blk["c"][1]) if s.get("k") not in ("CXXForRangeStmt", "DoStmt")]
-    B.run(stmts)
-    got = B.state.get(scc_key)
+    undecided = None
+    try:
+        B.run(stmts)
+        got = B.state.get(scc_key)
+    except AnalysisBroken as e_:
+        got, undecided = None, str(e_)
     want = (cs1 - cs0) / sp.sqrt((cs1 - cs0) ** 2)
-    if got is not None and eq(got, want):
+    if undecided is not None:
+        # the block branches on something this evaluation cannot decide: the check for conditional writes below still applies
+        rep.unknown(rule, "cross-section direction: %s" % undecided[:120])
+    elif got is not None and eq(got, want):
         rep.ok(rule, "surface_coord_conversions = (cs1-cs0)/|cs1-cs0|", W.nloc(blk), W.qn, str(got))
     else:
         rep.violation(rule, "cross-section direction", W.nloc(blk), W.qn, str(got), "expected (cs1 - cs0)/|cs1 - cs0|", key=rule + "|direction",
